@@ -4,6 +4,9 @@ spec:   spec/MediaCache.tla       one request: handler kind, body kind, value/er
                                   one action per access (get_media(), get_media(default_when_empty=..), .media)
         spec/MC_MediaCache.tla    bounded instance, behaviour export, document / form shapes
         spec/MediaCacheTrace.tla  trace judge
+        spec/MediaCacheResp.tla   response side: assignments / in-place mutation + re-assignment / render_body() /
+                                  data / text on one Response; the body sent is the document as LAST assigned
+        spec/MC_MediaCacheResp.tla, spec/MediaCacheRespTrace.tla   its bounded instance and trace judge
 legs:   M  exhaustive TLC check (complete state graph) + coverage guard + wrong-design switches
         A  every TLC behaviour (stack x content type x body kind x 4 accesses) is run as a whole request
            through the raw WSGI / ASGI drivers under several chunkings; valid bodies are what a real app
@@ -31,7 +34,9 @@ META = {
                   'lone surrogates, non-string keys and tuples; form mappings are name -> str | list of >= 2 str with non-empty '
                   'names (what the form parser itself can produce).  Every top-level scalar of the pools and the empty containers (the falsy documents null, false, 0, "", [], {}) '
                   'are sent as bodies of their own; ASGI requests are driven with and without a Content-Length header. Bodies nested '
-                  'deeper than the interpreter recursion limit are probed separately.  Trusted: TLC, json.loads / bytes.decode as classifiers, '
+                  'deeper than the interpreter recursion limit are probed separately; integer literals at the int<->str conversion limit '
+                  '(4300 / 4301 / 5000 digits, top level and nested) are part of the body pool.  Response histories: all of length 4 '
+                  '(quick) / 5 (thorough), random to 17 statements.  Trusted: TLC, json.loads / bytes.decode as classifiers, '
                   'engine/drivers.py.',
 }
 
@@ -201,7 +206,10 @@ class Harness:
                 e['same'] = val is st.first_val
                 e['eq'] = h.s.has_expect and strict_eq(val, h.s.expect)
                 if not e['eq']:
-                    e['info'] = repr(val)[:200]
+                    try:
+                        e['info'] = repr(val)[:200]
+                    except ValueError:          # an int beyond the int->str conversion limit
+                        e['info'] = '<%s not printable>' % type(val).__name__
             h.s.events.append(e)
 
         class WRes:
@@ -244,6 +252,23 @@ class Harness:
                     raise st.last_exc
                 resp.text = 'done'
 
+        class WResp:
+            def on_get(self, req, resp):
+                h.rs.start(resp)
+                for op in h.rs.ops:
+                    body = h.rs.step(resp, op)
+                    if op == 'render':
+                        h.rs.rendered(resp.render_body())
+
+        class AResp:
+            async def on_get(self, req, resp):
+                h.rs.start(resp)
+                for op in h.rs.ops:
+                    h.rs.step(resp, op)
+                    if op == 'render':
+                        h.rs.rendered(await resp.render_body())
+
+        self.rs = None
         self.reads = 0
         self.wapp = falcon.App()
         self.aapp_inner = falcon.asgi.App()
@@ -253,6 +278,8 @@ class Harness:
                 opts.media_handlers['application/vnd.api+json'] = media.JSONHandler(loads=loads)
         self.wapp.add_route('/m', WRes())
         self.aapp_inner.add_route('/m', ARes())
+        self.wapp.add_route('/r', WResp())
+        self.aapp_inner.add_route('/r', AResp())
 
         async def aapp(scope, receive, send):
             async def recv():
@@ -298,6 +325,200 @@ class Harness:
         elif res.status != 200:
             wire = res.status
         return evs, wire
+
+
+# ---- response-side histories (MediaCacheResp) --------------------------------------------------
+class RespScript:
+    """Statements made on one Response.  Every document carries its version number, so the trusted
+    decoder can tell which version a body is a rendering of; a snapshot is taken at every assignment."""
+
+    def __init__(self, ops, kind):
+        self.ops, self.kind = list(ops), kind        # kind: 'dict' | 'list' | 'form'
+        self.ver = 0
+        self.snap = {}
+        self.events = []
+
+    def start(self, resp):
+        if self.kind == 'form':
+            resp.content_type = 'application/x-www-form-urlencoded'
+
+    def make(self, v):
+        if self.kind == 'dict':
+            return {'ver': v, 'items': [v, 'é\U0001F600'], 'n': None, 'nested': {'k': [v]}}
+        if self.kind == 'list':
+            return [v, {'k': 'v"\\'}, [v]]
+        return {'ver': str(v), 'k': 'x y&z=%', 'l': ['1', str(v)]}
+
+    def mutate(self, d, v):
+        if self.kind == 'dict':
+            d['ver'] = v
+            d['items'].append(v)
+            d['nested']['k'][0] = v
+            d['added%d' % v] = True
+        elif self.kind == 'list':
+            d[0] = v
+            d[2].append(v)
+            d.append('v%d' % v)
+        else:
+            d['ver'] = str(v)
+            d['l'].append(str(v))
+            d['added%d' % v] = 'y'
+
+    def step(self, resp, op):
+        import copy
+        e = {'op': op, 'kind': 'none', 'v': 0}
+        if op == 'new':
+            self.ver += 1
+            d = self.make(self.ver)
+            resp.media = d
+            self.snap[self.ver] = copy.deepcopy(d)
+            e['v'] = self.ver
+        elif op == 'mutsame':
+            self.ver += 1
+            d = resp.media
+            self.mutate(d, self.ver)
+            resp.media = d
+            self.snap[self.ver] = copy.deepcopy(d)
+            e['v'] = self.ver
+        elif op == 'same':
+            resp.media = resp.media
+        elif op == 'none':
+            resp.media = None
+        elif op == 'setdata':
+            resp.data = b'DATA'
+        elif op == 'cleardata':
+            resp.data = None
+        elif op == 'settext':
+            resp.text = 'TEXT'
+        elif op == 'cleartext':
+            resp.text = None
+        elif op != 'render':
+            raise MachineryError('unknown response statement %r' % (op,))
+        self.events.append(e)
+
+    def rendered(self, body):
+        self.events[-1]['kind'], self.events[-1]['v'] = self.read(body)
+
+    def read(self, body):
+        """trusted reading of a body: which kind, and for media which version"""
+        import urllib.parse
+        if body is None or body == b'':
+            return 'none', 0
+        if body == b'TEXT':
+            return 'text', 0
+        if body == b'DATA':
+            return 'data', 0
+        try:
+            if self.kind == 'form':
+                return 'media', int(urllib.parse.parse_qs(body.decode('ascii'))['ver'][0])
+            d = json.loads(body.decode('utf-8'))
+            return 'media', int(d['ver'] if self.kind == 'dict' else d[0])
+        except Exception:  # noqa
+            return 'garbled', -1
+
+
+def run_response(H, stack, ops, kind):
+    """-> (events, sent [kind, v], eq): one GET whose responder makes the statements; the body that reached the
+    client is read with the trusted decoder and, if it is media, sent back as a request on the other stack."""
+    rs = H.rs = RespScript(ops, kind)
+    res = H.call(stack, drivers.Req('GET', target=b'/r'))
+    if res.exc is not None or res.status != 200:
+        return rs.events, {'kind': 'failed', 'v': res.status or 0}, False, 'status %r exc %r' % (res.status, res.exc)
+    k, v = rs.read(res.body)
+    eq = True
+    info = ''
+    if k == 'media':
+        other = 'asgi' if stack == 'wsgi' else 'wsgi'
+        evs, wire = H.request(other, res.header('content-type'), res.body, [3] if other == 'asgi' else None, [('get', False)],
+                              rs.snap.get(v), v in rs.snap)
+        eq = bool(evs) and evs[0]['out'] == 'val' and evs[0]['eq']
+        info = '' if eq else 'sent %r, snapshot %r' % (res.body[:200], rs.snap.get(v))
+    return rs.events, {'kind': k, 'v': v}, eq, info
+
+
+RESP_KINDS = ('dict', 'list', 'form')
+
+
+def leg_resp(ctx, H):
+    rng = ctx.rng
+    # ---- M: the design, and its wrong-design switch
+    r = ctx.tlc('MC_MediaCacheResp', 'MC_MediaCacheResp.cfg', coverage=True, timeout=300, workers=4)
+    ctx.require_coverage(r, ['XAssignNew', 'XMutateAssignSame', 'XAssignSame', 'XAssignNone', 'XRender', 'XSetData', 'XSetText'])
+    rw = ctx.tlc('MC_MediaCacheResp', 'MC_MediaCacheRespW.cfg', must_hold=False, count=False, timeout=300, workers=2)
+    if not rw.violated:
+        raise MachineryError('wrong-design switch SetterInvalidates=FALSE did not violate any invariant')
+    # ---- A: every behaviour of the bound, on both stacks
+    ra = ctx.tlc('MC_MediaCacheResp', 'MC_MediaCacheRespA.cfg' if ctx.quick else 'MC_MediaCacheRespA5.cfg', timeout=600, workers=4, count=False)
+    behs = list({digest(j): j for j in ra.json if 'ev' in j}.values())
+    if len(behs) < (2900 if ctx.quick else 23000):
+        raise MachineryError('response behaviours incomplete: %d' % len(behs))
+    n = 0
+    for bi, b in enumerate(behs):
+        ops = [e['op'] for e in b['ev']]
+        for si, stack in enumerate(('wsgi', 'asgi')):
+            kind = RESP_KINDS[(bi + si) % 3]
+            evs, sent, eq, info = run_response(H, stack, ops, kind)
+            n += 1
+            case = {'leg': 'resp-A', 'stack': stack, 'kind': kind, 'ops': ops, 'spec': b}
+            ctx.case(case, nontrivial=len(ops) >= 2, key=('resp', bi, stack))
+            if sent['kind'] == 'failed':
+                ctx.violation('P:exc', case, 'response failed: %s' % info)
+                continue
+            bad = False
+            for i, (e, w) in enumerate(zip(evs, b['ev'])):
+                if w['op'] == 'render' and (e['kind'] != w['kind'] or (w['kind'] == 'media' and e['v'] != w['v'])):
+                    ctx.violation('P:render', dict(case, step=i + 1), 'render_body() gave %s v%s, spec %s v%s' % (e['kind'], e['v'], w['kind'], w['v']))
+                    bad = True
+                    break
+            if bad:
+                continue
+            w = b['sent']
+            if sent['kind'] != w['kind'] or (w['kind'] == 'media' and sent['v'] != w['v']):
+                ctx.violation('P:sent', case, 'the client got %s v%s; the document last assigned is %s v%s' % (sent['kind'], sent['v'], w['kind'], w['v']))
+            elif not eq:
+                ctx.violation('P:eq', case, 'the body does not deserialise to the document as assigned: %s' % info)
+    ctx.traces_validated += n
+    ctx.extra['response_behaviours'] = len(behs)
+    # ---- B: longer random histories, judged by TLC
+    traces, cases = [], []
+    for i in range(ctx.pick(600, 20000)):
+        ops, have = [], False
+        for _ in range(rng.randint(3, 14)):
+            u = rng.random()
+            if u < 0.22:
+                op = 'new'
+            elif u < 0.42:
+                op = 'mutsame' if have else 'new'
+            elif u < 0.48:
+                op = 'same' if have else 'render'
+            elif u < 0.54:
+                op = 'none'
+            elif u < 0.80:
+                op = 'render'
+            else:
+                op = rng.choice(('setdata', 'cleardata', 'settext', 'cleartext', 'cleardata', 'cleartext'))
+            have = True if op in ('new', 'mutsame') else False if op == 'none' else have
+            ops.append(op)
+        if rng.random() < 0.7:
+            ops += rng.choice((['cleardata', 'cleartext'], ['cleartext', 'cleardata', 'render']))
+        stack, kind = ('wsgi', 'asgi')[i % 2], rng.choice(RESP_KINDS)
+        evs, sent, eq, info = run_response(H, stack, ops, kind)
+        case = {'leg': 'resp-B', 'stack': stack, 'kind': kind, 'ops': ops}
+        ctx.case(case, nontrivial=True, key=('respb', i))
+        if sent['kind'] == 'failed':
+            ctx.violation('P:exc', case, 'response failed: %s' % info)
+            continue
+        traces.append({'ev': evs, 'sent': sent, 'eq': eq})
+        cases.append(dict(case, events=evs, sent=sent, info=info))
+    verdicts = ctx.judge('MediaCacheRespTrace', traces, timeout=900, chunk=4000)
+    for case, v in zip(cases, verdicts):
+        if v == 'ok':
+            continue
+        if v.startswith('H:'):
+            raise MachineryError('harness produced an invalid response history: %s %r' % (v, case['ops']))
+        ctx.violation(v.split('@')[0], case, 'response history judged %s: sent %r %s' % (v, case['sent'], case['info']))
+    ctx.extra['random_response_histories'] = len(traces)
+    ctx.progress('response legs done: %d behaviours x 2 stacks, %d random histories' % (len(behs), len(traces)))
 
 
 # ---- bodies ------------------------------------------------------------------------------------
@@ -522,6 +743,7 @@ def run(ctx):
 
     # ---- leg B ----------------------------------------------------------------------------------
     leg_b(ctx, H)
+    leg_resp(ctx, H)
     probe_deep_nesting(ctx, H)
 
 
@@ -564,36 +786,76 @@ def rand_form(rng):
     return out
 
 
-def leg_b(ctx, H):
+def bigint_jobs():
+    """JSON bodies whose integer literals sit at CPython's int <-> str conversion limit: the trusted decoder
+    says whether the interpreter can parse them (then: that value) or not (then: an undecodable body)."""
+    limit = sys.get_int_max_str_digits() if hasattr(sys, 'get_int_max_str_digits') else 0
+    if not limit:
+        return
+    for nd in (limit, limit + 1, limit + 700):
+        digits = b'7' * nd
+        for shape, body in (('top', digits), ('negative', b'-' + digits), ('in-list', b'[1, ' + digits + b', "x"]'),
+                            ('nested', b'{"a": {"b": [-' + digits + b']}, "c": null}')):
+            for stack, framing in (('wsgi', 'length'), ('asgi', 'length'), ('asgi', 'chunked')):
+                for ci, calls in enumerate(([('get', False), ('media', False), ('get', True)], [('get', True), ('get', False)])):
+                    ctype = ('application/json', 'application/vnd.api+json; charset=utf-8')[ci]
+                    case = {'leg': 'B', 'stack': stack, 'ctype': ctype, 'handler': 'json', 'special': 'integer literal of %d digits, %s' % (nd, shape)}
+                    yield (stack, ctype, 'json', body, 'badenc', None, False, calls, [1500] if stack == 'asgi' else None, framing, True, case)
+
+
+def random_job(ctx, H, i):
     rng = ctx.rng
+    stack = ('wsgi', 'asgi')[i % 2]
+    ctype, handler = rng.choice(CT_RANDOM)
+    rct = ctype if handler != 'none' and ctype not in (None, '*/*') else ('application/json' if handler != 'form' else ctype)
+    doc = rand_form(rng) if handler == 'form' else rand_doc(rng, rng.randint(0, 4))
+    sbody, sct, err = H.render(('wsgi', 'asgi')[rng.randrange(2)], rct, doc)
+    case = {'leg': 'B', 'stack': stack, 'ctype': ctype, 'handler': handler, 'doc': doc}
+    if err:
+        ctx.violation('P:serialize', case, err)
+        return None
+    u = rng.random()
+    expect, has_expect = None, False
+    if u < 0.18:
+        body, bk = b'', 'empty'
+        if handler == 'form':
+            expect, has_expect = {}, True
+    elif u < 0.5 or handler == 'none':
+        body, bk, expect, has_expect = sbody, 'valid', doc, True
+    elif handler == 'form':
+        if u < 0.75 and len(sbody) > 1:
+            body, bk = sbody[:rng.randrange(1, len(sbody))], 'cut'
+        else:
+            body, bk = badenc_form(sbody, rng), 'badenc'
+    else:
+        body = truncate_json(sbody, rng) if u < 0.75 else badenc_json(sbody, rng)
+        bk = 'truncated' if u < 0.75 else 'badenc'
+    calls = []
+    for _ in range(rng.choice((1, 2, 2, 3, 3, 4, 5, 7, 9))):
+        u = rng.random()
+        calls.append(('media', False) if u < 0.3 else ('get', u < 0.65))
+    L = len(body)
+    ch = rng.choice((None, [1], [2], [rng.randint(1, L + 1)], [rng.randint(0, 3) for _ in range(rng.randint(1, 4))] + [1],
+                     [L], [L + 3], [max(1, L // 3)]))
+    if stack == 'wsgi':
+        ch = None
+    framing = 'chunked' if stack == 'asgi' and rng.random() < 0.5 else 'length'
+    return (stack, ctype, handler, body, bk, expect, has_expect, calls, ch, framing, rng.random() < 0.8, case)
+
+
+def leg_b(ctx, H):
     n = ctx.pick(2500, 200000)
     traces, cases, seen = [], [], set()
-    for i in range(n):
-        stack = ('wsgi', 'asgi')[i % 2]
-        ctype, handler = rng.choice(CT_RANDOM)
-        rct = ctype if handler != 'none' and ctype not in (None, '*/*') else ('application/json' if handler != 'form' else ctype)
-        doc = rand_form(rng) if handler == 'form' else rand_doc(rng, rng.randint(0, 4))
-        sbody, sct, err = H.render(('wsgi', 'asgi')[rng.randrange(2)], rct, doc)
-        case = {'leg': 'B', 'stack': stack, 'ctype': ctype, 'handler': handler, 'doc': doc}
-        if err:
-            ctx.violation('P:serialize', case, err)
-            continue
-        u = rng.random()
-        expect, has_expect = None, False
-        if u < 0.18:
-            body, bk = b'', 'empty'
-            if handler == 'form':
-                expect, has_expect = {}, True
-        elif u < 0.5 or handler == 'none':
-            body, bk, expect, has_expect = sbody, 'valid', doc, True
-        elif handler == 'form':
-            if u < 0.75 and len(sbody) > 1:
-                body, bk = sbody[:rng.randrange(1, len(sbody))], 'cut'
-            else:
-                body, bk = badenc_form(sbody, rng), 'badenc'
-        else:
-            body = truncate_json(sbody, rng) if u < 0.75 else badenc_json(sbody, rng)
-            bk = 'truncated' if u < 0.75 else 'badenc'
+
+    def jobs():
+        for j in bigint_jobs():
+            yield j
+        for i in range(n):
+            j = random_job(ctx, H, i)
+            if j is not None:
+                yield j
+    for i, (stack, ctype, handler, body, bk, expect, has_expect, calls, ch, framing, reraise, case) in enumerate(jobs()):
+        doc = case.get('doc')
         if handler == 'json' and body:
             # the trusted decoder has the last word on what the bytes are
             ok, val = trusted_json(body)
@@ -609,19 +871,9 @@ def leg_b(ctx, H):
                 body.decode('ascii')
             except UnicodeDecodeError:
                 raise MachineryError('form serialisation is not ASCII: %r' % (body,))
-        calls = []
-        for _ in range(rng.choice((1, 2, 2, 3, 3, 4, 5, 7, 9))):
-            u = rng.random()
-            calls.append(('media', False) if u < 0.3 else ('get', u < 0.65))
-        L = len(body)
-        ch = rng.choice((None, [1], [2], [rng.randint(1, L + 1)], [rng.randint(0, 3) for _ in range(rng.randint(1, 4))] + [1],
-                         [L], [L + 3], [max(1, L // 3)]))
-        if stack == 'wsgi':
-            ch = None
-        framing = 'chunked' if stack == 'asgi' and rng.random() < 0.5 else 'length'
-        evs, wire = H.request(stack, ctype, body, ch, calls, expect, has_expect, reraise=rng.random() < 0.8, framing=framing)
+        evs, wire = H.request(stack, ctype, body, ch, calls, expect, has_expect, reraise=reraise, framing=framing)
         case.update(body=list(body), body_kind=bk, chunks=ch, calls=calls, framing=framing)
-        ctx.case(case, nontrivial=len(calls) >= 2 or bk != 'valid', key=i)
+        ctx.case(case if len(body) < 2000 else dict(case, body='(%d bytes)' % len(body)), nontrivial=len(calls) >= 2 or bk != 'valid', key=i)
         if len(evs) != len(calls):
             ctx.violation('P:exc', case, 'responder did not complete: %d of %d accesses (wire %s)' % (len(evs), len(calls), wire))
             continue
